@@ -320,8 +320,17 @@ func storesCursor(fn *ssa.Function) (ssa.Value, bool) {
 func ruleL2(r *Report) {
 	L := r.Shared.Lockset()
 	h := r.Rule("L2", "L", "every invocation of a client callback after the transaction cursor was positioned holds the block latch (R or W) on every call path", 3)
-	by := map[string][]ssa.Instruction{}
+	type cbSite struct {
+		ins ssa.Instruction
+		s   *LSite
+	}
+	by := map[string][]cbSite{}
+	var inss []ssa.Instruction
 	for ins := range L.UserCB {
+		inss = append(inss, ins)
+	}
+	sort.Slice(inss, func(i, j int) bool { return inss[i].Pos() < inss[j].Pos() })
+	for _, ins := range inss {
 		fn := ins.Parent()
 		if !r.P.inColumnPkg(fn) {
 			continue
@@ -329,21 +338,35 @@ func ruleL2(r *Report) {
 		if _, ok := storesCursor(fn); !ok {
 			continue
 		}
-		by[fnName(topFn(fn))] = append(by[fnName(topFn(fn))], ins)
+		ss := L.UserCB[ins]
+		for i := range ss {
+			// keyed by the API function the callback belongs to: a helper (function or method value)
+			// that the loop body was moved into does not rename the obligation
+			n := fnName(topFn(fn))
+			if isHelper(topFn(fn)) {
+				for c := ss[i].Ctx; c != nil; c = c.Parent {
+					if !isHelper(topFn(c.Fn)) {
+						n = fnName(topFn(c.Fn))
+						break
+					}
+				}
+			}
+			by[n] = append(by[n], cbSite{ins, &ss[i]})
+		}
 	}
 	for _, n := range sortedKeys(by) {
 		var bad *LSite
 		var badIns ssa.Instruction
-		for _, ins := range by[n] {
-			if s := worstSite(L.UserCB[ins], func(h heldSet) bool { return h.has("latch") }); s != nil && bad == nil {
-				bad, badIns = s, ins
+		for _, c := range by[n] {
+			if !c.s.Held.has("latch") && bad == nil {
+				bad, badIns = c.s, c.ins
 			}
 		}
 		if bad != nil {
 			o := h.Bad(n, r.P.InstrPos(badIns), "positioned row callback invoked without the block latch: a commit can change the row between two reads of the callback")
 			setWitness(o, bad)
 		} else {
-			h.OK(n, r.P.InstrPos(by[n][0]), "callback invoked under the latch in every context")
+			h.OK(n, r.P.InstrPos(by[n][0].ins), "callback invoked under the latch in every context")
 		}
 	}
 }
